@@ -24,7 +24,7 @@ def describe(tier):
         "rule": "same enumeration as C08 (all ordered pairs of subsets of a %d-value universe and of %r; all lists for the multi-way "
         "union) executed on the bounds-checked rebuild; monitor = IndexError from any kernel. Non-trivial: at least one operand "
         "empty, or a single-element operand, or overlapping ranges (the loops actually run). %s" % (
-            K.LOW[tier], K.HIGH[tier], "Thorough also runs the pairs under an ASan build of the unmodified .pyx." if tier == "thorough" else ""),
+            K.LOW[tier], K.HIGH[tier], "The UNMODIFIED kernels are additionally run (in a child process) with every operand placed flush against inaccessible guard pages, before its first and after its last element, contiguous and as reversed views: accesses that do not go through a memoryview index (memcpy, pointer arithmetic) fault there. " + ("Thorough also runs the pairs under an ASan build of the unmodified .pyx." if tier == "thorough" else "")),
         "bounds": {"low_universe": K.LOW[tier], "high_universe": K.HIGH[tier], "build": getattr(catii, "_vf_build_info", {})},
         "exhaustive": True,
         "assumptions": [
@@ -35,7 +35,7 @@ def describe(tier):
 
 
 def blocks(tier):
-    bl = K.pair_blocks(tier) + K.many_blocks(tier) + K.run_blocks(tier) + K.block_blocks(tier)
+    bl = K.pair_blocks(tier) + K.many_blocks(tier) + K.run_blocks(tier) + K.block_blocks(tier) + [("manylong", {})]
     return [(f, dict(p, tier=tier)) for f, p in bl]
 
 
@@ -83,6 +83,11 @@ def run_block(family, p, acc):
                 check_pair(B, A, acc, "runs")
                 acc.case(("runs", tuple(A), tuple(B)), nontrivial=True, outcome=("runs", K.overlapping(A, B)), sample=lambda: {"universe": "runs", "A": A, "B": B})
         return
+    if family == "manylong":
+        for lst in K.many_long_lists(tier):
+            check_many(lst, acc, "manylong")
+            acc.case(("manylong", tuple(map(tuple, lst))), nontrivial=True, outcome=("manylong", len(lst)), sample=lambda: {"fam": "manylong", "arrays": lst})
+        return
     if family == "blocked":
         descs = K.block_descs(tier)
         for da in descs[p["a0"]:p["a1"]]:
@@ -116,6 +121,13 @@ def post(tier, tot):
     extra = {"bounds_checked_build": info}
     if not info.get("rewritten_directives") and not info.get("forced_global_boundscheck"):
         pass
+    if not tot["violations"]:
+        g = run_guard(tier)
+        extra["guard_pages"] = {k: g.get(k) for k in ("calls", "ok")}
+        if g.get("error"):
+            return {"__error__": g["error"]}
+        if not g["ok"]:
+            tot["violations"].append({"property": ID, "site": "guard-page", "case": g["first_case"], "detail": g["detail"][:1500]})
     if tier == "thorough" and not tot["violations"]:
         r = run_asan(tier)
         extra["asan"] = {k: r[k] for k in ("pairs", "reports", "ok")}
@@ -124,6 +136,117 @@ def post(tier, tot):
         if r["reports"]:
             tot["violations"].append({"property": ID, "site": "asan", "case": r["first_case"], "detail": r["first_report"][:1500]})
     return extra
+
+
+GUARD_DRIVER = r"""
+# Operands placed flush against PROT_NONE pages (before the first and after the last element): any read or write of the UNMODIFIED
+# kernels that leaves an operand on either side - raw pointer arithmetic, memcpy, an index computed before its bounds test - faults.
+import sys, json, mmap, ctypes, importlib.machinery, importlib.util
+so_path, tier = sys.argv[1], sys.argv[2]
+sys.path.insert(0, sys.argv[3])
+import numpy
+loader = importlib.machinery.ExtensionFileLoader("set_operations", so_path)
+spec = importlib.util.spec_from_file_location("set_operations", so_path, loader=loader)
+so = importlib.util.module_from_spec(spec); loader.exec_module(so)
+from vf import kernels as K
+PAGE = mmap.PAGESIZE
+libc = ctypes.CDLL(None, use_errno=True)
+libc.mprotect.argtypes = [ctypes.c_void_p, ctypes.c_size_t, ctypes.c_int]
+
+
+class Guarded:
+    def __init__(self, pages=2):
+        self.m = mmap.mmap(-1, (pages + 2) * PAGE)
+        addr = ctypes.addressof(ctypes.c_char.from_buffer(self.m))
+        for off in (0, (pages + 1) * PAGE):
+            if libc.mprotect(addr + off, PAGE, 0) != 0:
+                raise OSError("mprotect failed")
+        self.buf = numpy.frombuffer(self.m, dtype=numpy.uint32, count=pages * PAGE // 4, offset=PAGE)
+
+    def place(self, vals, where, reverse):
+        n = len(vals)
+        v = self.buf[len(self.buf) - n:] if where == "end" else self.buf[:n]
+        if reverse:
+            v[:] = vals[::-1]
+            return v[::-1]          # an ascending VIEW of descending storage: element 0 is the last word before the guard page
+        v[:] = vals
+        return v
+
+
+GA, GB, GC = Guarded(), Guarded(), Guarded()
+n = 0
+kern = (so.set_intersect_merge_np, so.set_union_merge_np, so.set_difference_merge_np)
+layouts = [(wa, ra, wb, rb) for wa in ("end", "start") for ra in (False, True) for wb in ("end", "start") for rb in (False, True)]
+
+
+def run_pair(A, B, tag):
+    global n
+    for wa, ra, wb, rb in layouts:
+        if (ra or rb) and (wa != wb):
+            continue
+        sys.stderr.write("CASE %s\n" % json.dumps({"u": tag, "A": A, "B": B, "place": [wa, ra, wb, rb]}))
+        a, b = GA.place(A, wa, ra), GB.place(B, wb, rb)
+        for fn in kern:
+            try:
+                fn(a, b)
+            except Exception:
+                pass
+            n += 1
+
+
+uni = K.universes(tier)["low"]
+N = 1 << len(uni)
+for ma in range(N):
+    A = K.subset(uni, ma)
+    for mb in range(N):
+        run_pair(A, K.subset(uni, mb), "low")
+for A in K.run_sets("quick")[::3]:
+    for B in K.probe_sets("quick")[::5]:
+        run_pair(A, B, "runs"); run_pair(B, A, "runs")
+descs = K.block_descs("quick")
+for da in descs[::2]:
+    A = K.expand(da)
+    for B in K.tiny_probes(A):
+        run_pair(A, B, "blocked"); run_pair(B, A, "blocked")
+    for db in descs[1::5]:
+        run_pair(A, K.expand(db), "blocked")
+for name, u, k in K.many_families(tier)[:2]:
+    for nn in range(k + 1):
+        for lst in K.many_lists(tier, name, nn):
+            if len(lst) > 3:
+                continue
+            for where in ("end", "start"):
+                sys.stderr.write("CASE %s\n" % json.dumps({"fam": name, "arrays": [list(x) for x in lst], "place": where}))
+                arrs = [g.place(list(x), where, False) for g, x in zip((GA, GB, GC), lst)]
+                try:
+                    so.set_union_merge_many(arrs)
+                except Exception:
+                    pass
+                n += 1
+print("CALLS", n)
+"""
+
+
+def run_guard(tier):
+    try:
+        so, info = build.build("plain")
+    except build.BuildError as e:
+        return {"error": "plain build failed: %s" % e, "calls": 0, "ok": False}
+    p = subprocess.run([sys.executable, "-c", GUARD_DRIVER, so, tier, build.VERIF], stdout=subprocess.PIPE, stderr=subprocess.PIPE, text=True)
+    calls = 0
+    for line in p.stdout.splitlines():
+        if line.startswith("CALLS"):
+            calls = int(line.split()[1])
+    if p.returncode < 0:
+        last = None
+        for line in p.stderr.splitlines():
+            if line.startswith("CASE "):
+                last = line[5:]
+        return {"calls": calls, "ok": False, "first_case": dict(json.loads(last) if last else {}, guard=True),
+                "detail": "the unmodified kernels died with signal %d while operands sat flush against inaccessible pages: an access outside an operand" % (-p.returncode)}
+    if p.returncode != 0:
+        return {"error": "guard-page driver exited %d: %s" % (p.returncode, p.stderr[-1500:]), "calls": calls, "ok": False}
+    return {"calls": calls, "ok": True}
 
 
 ASAN_DRIVER = r"""
@@ -196,6 +319,10 @@ def replay(case, site=None):
     from ..core import Acc
 
     acc = Acc(ID, [], stop_at_first=False)
+    if case.get("guard"):
+        g = run_guard("quick")
+        print("  guard-page run: %r" % ({k: g.get(k) for k in ("calls", "ok", "first_case", "detail")},))
+        return not g.get("ok", False)
     if "arrays" in case:
         check_many(case["arrays"], acc, case.get("fam"))
     else:
